@@ -295,26 +295,48 @@ pub fn run(rep: &mut Report, cli: &Cli) {
         start = m.step_setup(&start, t, k, &mut out);
         assert!(out.violations.is_empty(), "c39 setup trade violated: {:?}", out.violations);
     }
-    let explore: Vec<usize> = if th { vec![3, 4, 5, 6] } else { vec![4, 5, 6] };
-    for &t in &explore {
-        m.acts.push(Act::Increase(t, 0));
-        m.acts.push(Act::Increase(t, 1));
-        if th {
-            m.acts.push(Act::Increase(t, 2));
+    // two alphabets: the narrow one (three traders, two sizes) and the wide one (four traders, three sizes, a second decrease and a
+    // long clock advance); the quick tier explores the narrow one to depth 5, the thorough tier the wide one to depth 4 and the
+    // narrow one to depth 5 (the wide alphabet at depth 5 or anything at depth 6 exceeds the 40 GB address-space cap)
+    let acts_of = |wide: bool| -> Vec<Act> {
+        let mut acts = vec![];
+        let explore: Vec<usize> = if wide { vec![3, 4, 5, 6] } else { vec![4, 5, 6] };
+        for &t in &explore {
+            acts.push(Act::Increase(t, 0));
+            acts.push(Act::Increase(t, 1));
+            if wide {
+                acts.push(Act::Increase(t, 2));
+            }
         }
-    }
-    m.acts.push(Act::Decrease(4));
-    m.acts.push(Act::IncreaseLate(5, 1, 700));
-    m.acts.extend([Act::Adv(20), Act::Adv(150)]);
-    if th {
-        m.acts.extend([Act::Decrease(2), Act::Adv(600)]);
-    }
+        acts.push(Act::Decrease(4));
+        acts.push(Act::IncreaseLate(5, 1, 700));
+        acts.extend([Act::Adv(20), Act::Adv(150)]);
+        if wide {
+            acts.extend([Act::Decrease(2), Act::Adv(600)]);
+        }
+        acts
+    };
     if let Some(rv) = &cli.replay {
+        m.acts = acts_of(rv["ctx"]["wide"].as_bool().unwrap_or(false));
         e2::replay_into(rep, &m, &[start], rv);
         return;
     }
-    let depth = if th { 6 } else { 5 };
-    let o = e2::explore(rep, "trades with the competition callback", &m, vec![start], &e2::Config { depth, max_states: 3_000_000 }, json!({"machine": "competition"}));
+    let mut histogram: std::collections::BTreeMap<String, u64> = Default::default();
+    let mut counters: std::collections::BTreeMap<String, u64> = Default::default();
+    let runs: Vec<(bool, usize)> = if th { vec![(true, 4), (false, 5)] } else { vec![(false, 5)] };
+    for (wide, depth) in runs {
+        m.acts = acts_of(wide);
+        let name = if wide { "trades with the competition callback (wide alphabet)" } else { "trades with the competition callback" };
+        let o = e2::explore(rep, name, &m, vec![start.clone()], &e2::Config { depth, max_states: 3_000_000 }, json!({"machine": "competition", "wide": wide}));
+        for (k, v) in &o.histogram {
+            *histogram.entry(k.to_string()).or_insert(0) += *v;
+        }
+        for (k, v) in &o.counters {
+            *counters.entry(k.to_string()).or_insert(0) += *v;
+        }
+    }
+    struct O { histogram: std::collections::BTreeMap<String, u64>, counters: std::collections::BTreeMap<String, u64> }
+    let o = O { histogram, counters };
     for k in ["Increase:executed", "Decrease:executed"] {
         if o.histogram.get(k).copied().unwrap_or(0) == 0 && rep.violations_total() == 0 {
             rep.machinery(format!("vacuous competition exploration: outcome {k} never occurred"));
